@@ -2463,12 +2463,15 @@ def parse_config(bindings, skip_unknown=False):
             macro_name = '{}/{}'.format(scope, selector) if scope else selector
             with utils.try_with_location(location):
               bind_parameter((macro_name, 'gin.macro', 'value'), value, location)
-          elif not _should_skip(selector, skip_unknown):
+          else:
+            # (Deciding whether to skip may itself register the configurable,
+            # with dynamic registration: errors from that belong to this line.)
             with utils.try_with_location(location):
-              bind_parameter((scope, selector, arg_name), value, location)
+              if not _should_skip(selector, skip_unknown):
+                bind_parameter((scope, selector, arg_name), value, location)
         elif isinstance(statement, config_parser.BlockDeclaration):
-          if not _should_skip(statement.selector, skip_unknown):
-            with utils.try_with_location(statement.location):
+          with utils.try_with_location(statement.location):
+            if not _should_skip(statement.selector, skip_unknown):
               if not parse_context.get_configurable(statement.selector):
                 _raise_unknown_configurable_error(statement.selector)
         elif isinstance(statement, config_parser.ImportStatement):
